@@ -654,10 +654,10 @@ func (w *c27World) fillerRound(t *rapid.T, vk *vkCtx, hist *[]string) {
 // nextTarget: a round (> latest) at which some voter crosses the absent or the expiry threshold (+-1), if one is in reach.
 func (w *c27World) nextTarget(t *rapid.T) basics.Round {
 	latest := uint64(w.l.Latest())
-	var absOpts, expOpts []uint64
+	var absOpts, expOpts, firsts []uint64
 	add := func(l *[]uint64, vals ...uint64) {
 		for _, o := range vals {
-			if o > latest && o <= latest+120 && o <= c27MaxRound {
+			if o > latest && o <= latest+150 && o <= c27MaxRound {
 				*l = append(*l, o)
 			}
 		}
@@ -674,12 +674,17 @@ func (w *c27World) nextTarget(t *rapid.T) basics.Round {
 			}
 			if first, _ := w.absentFrom(a, ls); first != 0 {
 				add(&absOpts, first-1, first, first, first+1, first+3, first+10, first+25)
+				firsts = append(firsts, first)
 			}
 		}
 		if !d.VoteID.IsEmpty() && d.VoteLastValid < c27MaxRound {
 			e := uint64(d.VoteLastValid) + 1
 			add(&expOpts, e-1, e, e+1)
 		}
+	}
+	if len(firsts) >= 2 { // a round at which two accounts are absent at once (to exceed a small MaxMarkAbsent)
+		sort.Slice(firsts, func(i, j int) bool { return firsts[i] < firsts[j] })
+		add(&absOpts, firsts[1], firsts[1], firsts[1]+1, firsts[1]+1)
 	}
 	sort.Slice(absOpts, func(i, j int) bool { return absOpts[i] < absOpts[j] })
 	sort.Slice(expOpts, func(i, j int) bool { return expOpts[i] < expOpts[j] })
@@ -705,7 +710,7 @@ func TestVerif_C27_Lists(t *testing.T) {
 		p.MaxProposedExpiredOnlineAccounts = 3
 		p.Payouts.MaxMarkAbsent = 1 // two simultaneously absent accounts are enough to exceed it with justified entries only
 	})
-	protos := []protocol.ConsensusVersion{protocol.ConsensusFuture, protocol.ConsensusFuture, small, small, protocol.ConsensusCurrentVersion}
+	protos := []protocol.ConsensusVersion{protocol.ConsensusFuture, small, small, small, protocol.ConsensusCurrentVersion}
 	rapid.Check(t, func(rt *rapid.T) {
 		cv := rapid.SampledFrom(protos).Draw(rt, "proto")
 		crowd := 0
@@ -1008,6 +1013,16 @@ func c27TestRound(t *rapid.T, vk *vkCtx, w *c27World, hist *[]string) {
 			c.Absent = insert("bothA", without(c.Absent, []basics.Address{a}), a)
 		}
 		cands = append(cands, c)
+	}
+
+	// whenever enough justified entries exist, one candidate exceeds the maximum with justified entries only
+	if len(absOK) > maxA {
+		over := append([]basics.Address{}, absOK[:maxA+1]...)
+		cands = append(cands, c27Cand{Mode: "over-absent:all-justified", Absent: over, Expired: subset("oae", without(expOK, over), maxE)})
+	}
+	if len(expOK) > maxE {
+		over := append([]basics.Address{}, expOK[:maxE+1]...)
+		cands = append(cands, c27Cand{Mode: "over-expired:all-justified", Expired: over, Absent: subset("oea", without(absOK, over), maxA)})
 	}
 
 	var fp strings.Builder
